@@ -55,11 +55,13 @@ def instances(tier):
 TEXT = ("Bounded model checking: fast_path_fill sets exactly the addressed rectangle for EVERY rectangle inside a symbolic buffer (1/8/16/32 bpp) "
         "or reports failure having changed nothing (4/24 bpp); pixman_image_fill_boxes (incl. the direct-fill shortcut and its operator "
         "reduction) leaves exactly what pixman_image_composite32 of a solid image over the box leaves, and changes no bit outside "
-        "box /\\\\ image bounds (guard words, row padding, neighbouring sub-byte pixels), for symbolic colour and destination contents.")
+        "box /\\\\ image bounds (guard words, row padding, neighbouring sub-byte pixels), for symbolic colour and destination contents; the public pixman_blt over a chain holding the real sse2_blt (x86 builtins through "
+        "validated models) copies exactly the rectangle bit for bit and changes nothing else, incl. source == destination buffer with different strides.")
 NOTE = ("API-level instances need concrete geometry, colour alpha, operator and format (they select code paths through flags and function "
-        "tables; symbolic values there make symbolic execution explore every composite routine). SIMD fill/blt (sse2/mmx) are covered under "
-        "C02 if at all; pixman_blt has no C implementation (general returns FALSE).")
-RULE = "C19 instance = fill unit per bpp | fill_boxes (operator, format, alpha class, box)."
+        "tables; symbolic values there make symbolic execution explore every composite routine). sse2_fill/sse2_blt routines themselves are compared under C02; mmx is not encoded; "
+        "pixman_blt has no C implementation, so its instances install the SSE2 chain as global_implementation (CPU detection is not encoded).")
+# (added) public pixman_blt over a chain with the real sse2_blt, incl. same-buffer copies with different strides
+RULE = "C19 instance = fill unit per bpp | fill_boxes (operator, format, alpha class, box) | pixman_blt geometry."
 BOUNDS = {"fill": "buffer 2 rows x 2 words, all rectangles", "fill_boxes": "3x2 destination with padding, box from a menu of 7, 1 box per call"}
 OUTSIDE = ["wide (10-bit/float) destinations: the float pipeline does not fit (measured: out of memory at 16 GB)", "sse2_fill / sse2_blt / mmx_fill / mmx_blt", "multi-box calls (region sweep not encodable)", "clip regions on the destination", "fill_rectangles with more than 6 rectangles"]
 ASSUMPTIONS = ["allocation succeeds"]
